@@ -11,6 +11,15 @@
        (<= (+ (s-off s) (s-cap s)) 72057594037927936)
        (=> (= (s-arr s) 0) (and (= (s-len s) 0) (= (s-cap s) 0) (= (s-off s) 0)))))
 (define-fun okref ((r Int) (al Int)) Bool (and (<= 0 r) (< r al)))
+; ---------------------------------------------------------------------
+; alias classification (reflect-based converter is an assumed contract, audited under C12)
+(declare-fun aliasStack (Val) Bool)       ;;@trusted abstract: dynamic type derives from Stack (or pointer to one) and holds a non-nil embedded pointer
+(declare-fun aliasStackOf (Val) Int)      ;;@trusted abstract: the embedded *stack of such a value
+(declare-fun aliasCond (Val) Bool)        ;;@trusted abstract: dynamic type derives from Condition and holds a non-nil embedded pointer
+(declare-fun aliasCondOf (Val) Int)       ;;@trusted abstract: the embedded *condition of such a value
+(assert (forall ((v Val)) (! (=> (aliasStack v) (and (or ((_ is v_other) v) ((_ is v_pStack) v)) (> (aliasStackOf v) 0))) :pattern ((aliasStack v))))) ;;@trusted only foreign types and *Stack convert; result non-nil
+(assert (forall ((v Val)) (! (=> (aliasCond v) (and (or ((_ is v_other) v) ((_ is v_pCond) v)) (> (aliasCondOf v) 0) (not (aliasStack v)))) :pattern ((aliasCond v))))) ;;@trusted only foreign types and *Condition convert; a type derives from at most one of the two
+
 ; generated type invariant of an interface value: every reference inside it exists
 (define-fun okval ((v Val) (al Int)) Bool
   (and (=> ((_ is v_Stack) v) (okref (stack_of v) al))
@@ -25,7 +34,9 @@
        (=> ((_ is v_pCond) v) (okref (pcond_of v) al))
        (=> ((_ is v_err) v) (and (< 0 (err_of v)) (< (err_of v) al)))
        (=> ((_ is v_int) v) (isInt64 (int_of v)))
-       (=> ((_ is v_other) v) (>= (o_ty v) 100))))
+       (=> ((_ is v_other) v) (>= (o_ty v) 100))
+       (=> (aliasStack v) (okref (aliasStackOf v) al))
+       (=> (aliasCond v) (okref (aliasCondOf v) al))))
 ; --- strings (library functions: assumed, uninterpreted)
 (declare-fun toUpper (String) String)      ;;@trusted strings.ToUpper is a function of its argument
 (declare-fun toLower (String) String)      ;;@trusted strings.ToLower is a function of its argument
